@@ -80,6 +80,8 @@ TEMPLATES = [
     'a [1..3] -> msort -> mtac -> [9] -> cast int',
     '<nonexistentpipe%d> -> cat',
     'a [1..3] -> [ 1', 'a [1..3] -> [[ /1', 'a [1..3] -> ![ 1',
+    # a one-character word tight against a redirect token
+    'out x>>fa%d', 'out x~>fb%d', 'out x|>fc%d',
     # the table of named pipes stays usable after the linger timers of repeated closes have fired
     'pipe npc%d; !pipe npc%d; !pipe npc%d; sleep 3; !pipe npc%d; out done',
     'pipe npd%d; !pipe npd%d; !pipe npd%d; sleep 3; runtime --named-pipes -> null; out done',
@@ -129,7 +131,7 @@ def run(ck, replay=None):
                       '(0, 1 or - for structured builtins - 2 arguments of 29 hostile shapes) x (13 stdin shapes), and the index family: ([, ![, [[) x (one selector or '
                       'every ordered pair of 19 row / column / key selectors) x (7 tabular stdin shapes: csv, ragged csv, empty csv, generic, jsonl, malformed jsonl, jsonl with an empty row), run completely in '
                       'both tiers; the flag family: every flag that the Go source of a builtin\'s package declares, followed by a hostile value (negative, zero, 5e-1, word, huge) in four '
-                      'argument forms (alone, before / after a number, before a block; quick tier: the values negative and 5e-1, thorough tier: all); a seeded sample (quick) or all rows (thorough) of the rest plus 49 hand-written error-path programs (named-pipe misuse with the real 2 s timers, malformed signatures, bad '
+                      'argument forms (alone, before / after a number, before a block; quick tier: the values negative and 5e-1, thorough tier: all); a seeded sample (quick) or all rows (thorough) of the rest plus 52 hand-written error-path programs (named-pipe misuse with the real 2 s timers, malformed signatures, bad '
                       'casts, bad block names, out-of-range indexes, unbalanced quotes, bad flag tables) are executed in child processes with a '
                       'per-program deadline; a seeded subset also runs through the real `murex -c` binary.  Outcome rule from the specification: '
                       'ok | error (exit != 0); `panic caught`, `Murex has crashed`, death of the process or a missed deadline are violations.  '
